@@ -17,6 +17,8 @@ import ClairModel.Proofs.CvssPrint4
 import ClairModel.Proofs.CvssEnum
 import ClairModel.Proofs.CvssTemporal
 import ClairModel.Proofs.CvssTemporal2
+import ClairModel.Proofs.CvssOsv
+import ClairModel.Proofs.CvssOsv2
 
 namespace ClairModel.Props.C18
 open ClairModel ClairModel.Cvss ClairModel.CvssSpec ClairModel.Gen.Cvss
@@ -277,5 +279,35 @@ theorem v2_parsed_base_vector_facts {s : Bytes} {v : Vec} (h : parse2 s = some v
   obtain ⟨e, h0, h1, h2, h3, h4, h5⟩ := valid2_base_only (parse2_sound h) ht he
   rw [e]
   exact ⟨v2_base_score_eq_spec h0 h1 h2 h3 h4 h5, osv_severity_eq_band_v2 h0 h1 h2 h3 h4 h5⟩
+
+/-- OSV severity at documented strength (docs/concepts/severity_mapping.md maps
+    the *base* score): for every string `ParseV3` accepts — any metric order,
+    temporal and environmental metrics, explicit X — `fromCVSS3` applied to
+    the printed vector derives the rating of the score the vector library
+    computes for the base part of the vector -/
+theorem osv_severity_eq_base_rating_v3 {s : Bytes} {v : Vec} (h : parse3 s = some v) :
+    ∃ k, score3 (baseOf3 v) = some k ∧ osv3 (print3 v) = some (rating k) := by
+  have hv := parse3_sound h
+  have hb := baseOf3_valid v hv
+  have mem (m : Nat) (hm : m < 8) : v.get m ∈ g3 m := (hv.vals m (by omega)).resolve_left (hv.base m hm)
+  have hver : v.ver = 0 ∨ v.ver = 1 := by have := hv.ver; omega
+  rw [osv3_print3_base v hv]
+  unfold baseOf3
+  rcases hver with hz | hz <;> rw [hz]
+  · exact osv_severity_eq_rating_v30 (mem 0 (by decide)) (mem 1 (by decide)) (mem 2 (by decide)) (mem 3 (by decide))
+      (mem 4 (by decide)) (mem 5 (by decide)) (mem 6 (by decide)) (mem 7 (by decide))
+  · exact osv_severity_eq_rating_v31 (mem 0 (by decide)) (mem 1 (by decide)) (mem 2 (by decide)) (mem 3 (by decide))
+      (mem 4 (by decide)) (mem 5 (by decide)) (mem 6 (by decide)) (mem 7 (by decide))
+
+/-- the same for v2: for every string `ParseV2` accepts, `fromCVSS2` applied to
+    the printed vector derives the documented band of the score the vector
+    library computes for the base part -/
+theorem osv_severity_eq_base_band_v2 {s : Bytes} {v : Vec} (h : parse2 s = some v) :
+    ∃ k, score2 (baseOf2 v) = some k ∧ osv2 (print2 v) = inBands osvDocV2 k := by
+  have hv := parse2_sound h
+  have mem (m : Nat) (hm : m < 6) : v.get m ∈ g2 m := by rw [← pk2_eq_g2 m hm]; exact hv.base m hm
+  rw [osv2_print2_base v hv]
+  exact osv_severity_eq_band_v2 (mem 0 (by decide)) (mem 1 (by decide)) (mem 2 (by decide)) (mem 3 (by decide))
+    (mem 4 (by decide)) (mem 5 (by decide))
 
 end ClairModel.Props.C18
